@@ -1605,7 +1605,8 @@ static void process_if_chain(Chunk *br_start)
 
       if (pc->Is(CT_ELSEIF))
       {
-         while (  pc->IsNot(CT_VBRACE_OPEN)
+         while (  pc->IsNotNullChunk()                 // an 'else if' cut off by the end of the file
+               && pc->IsNot(CT_VBRACE_OPEN)
                && pc->IsNot(CT_BRACE_OPEN))
          {
             pc = pc->GetNextNcNnl(E_Scope::PREPROC);
